@@ -259,6 +259,75 @@ def same_shape(body, expected):
         return False
 
 
+_FLIP = {"==": "==", "!=": "!=", "<": ">", ">": "<", "<=": ">=", ">=": "<="}
+
+
+def cmp_alt(a, b, tag, ops=(">=", "<=", "==", "!=", ">", "<")):
+    """regex for the comparison `a <op> b` written from either side (`a >= b` or `b <= a`); a, b: regex fragments without
+    named groups (back references are fine); the operator, read with `a` on the left, is cmp_op(match, tag)"""
+    alt = lambda xs: "|".join(re.escape(x) for x in sorted(xs, key=len, reverse=True))
+    return r"(?:%s\s*(?P<%s>%s)\s*%s|%s\s*(?P<%s_r>%s)\s*%s)" % (a, tag, alt(ops), b, b, tag, alt(_FLIP[o] for o in ops), a)
+
+
+def cmp_op(m, tag):
+    return m.group(tag) or _FLIP[m.group(tag + "_r")]
+
+
+def inline_lets(body):
+    """a function body with the `let` bindings that merely NAME a sub-expression put back in place (a maintainer binds
+    `&path[end - 1]` to `last`; the extractors are written for the expression).  Only bindings whose inlining cannot change
+    the meaning are touched: not `mut`, bound once, never assigned, and either
+      (A) a shared reference to a place, `let x = &v[..]` / `&v[i].f` -- while x is alive the borrow checker forbids changes
+          of v, so every use of x reads what the expression reads at that point; or
+      (B) arithmetic over integer literals and identifiers that are not assigned, borrowed `&mut` or re-bound anywhere in the
+          scope of the binding (to the end of the enclosing block).
+    A use `x.f` becomes `v[..].f` (auto-deref), any other use `&v[..]`; (B) is put in parentheses."""
+    ident = r"[A-Za-z_]\w*"
+    place = r"%s(?:\s*\[[^\[\]]*\]|\s*\.\s*%s(?!\s*\())*" % (ident, ident)
+    for _ in range(12):
+        done = True
+        for m in re.finditer(r"\blet\s+(%s)\s*(?::[^=;]+)?=\s*([^;{}]+);" % ident, body):
+            name, rhs = m.group(1), m.group(2).strip()
+            if name in ("mut", "_") or len(re.findall(r"\b(?:let|for)\s+(?:mut\s+)?\(?[^=;]*?\b%s\b[^=;]*?(?:=|\bin\b)" % re.escape(name), body)) != 1:
+                continue
+            if re.search(r"(?<![.\w])%s\s*(?:[-+*/%%|&^]|<<|>>)?=(?!=)" % re.escape(name), body[m.end():]) or re.search(r"&mut\s+%s\b" % re.escape(name), body) or re.search(r"\|[^|]*\b%s\b[^|]*\|" % re.escape(name), body):
+                continue
+            a = re.fullmatch(r"&\s*(%s)" % place, rhs)
+            b_ = re.fullmatch(r"(?:%s|\d[\d_]*|[-+*() ]|\s)+" % ident, rhs) if not a else None
+            if a:
+                expr = re.sub(r"\s+", " ", a.group(1))
+                use_dot, use_other = expr, "&" + expr
+            elif b_ and re.search(r"[-+*]", rhs):
+                roots = set(re.findall(ident, rhs))
+                # the scope of the binding: up to the end of the enclosing block; nothing in it may assign, borrow mutably
+                # or re-bind an operand (then every use of the name reads what the expression reads there)
+                d, e = 0, len(body)
+                for k in range(m.end(), len(body)):
+                    if body[k] == "{":
+                        d += 1
+                    elif body[k] == "}":
+                        d -= 1
+                        if d < 0:
+                            e = k
+                            break
+                scope = body[m.end():e]
+                if any(re.search(r"(?<![.\w])%s\s*(?:[-+*/%%|&^]|<<|>>)?=(?!=)" % re.escape(r), scope) or re.search(r"&mut\s+%s\b" % re.escape(r), scope)
+                       or re.search(r"\b(?:let|for)\s+(?:mut\s+)?\(?[^=;]*?\b%s\b" % re.escape(r), scope) for r in roots):
+                    continue
+                use_dot = use_other = "(" + re.sub(r"\s+", " ", rhs) + ")"
+            else:
+                continue
+            rest = body[m.end():]
+            rest = re.sub(r"(?<![.\w])%s(?=\s*\.(?!\.))" % re.escape(name), lambda _m: use_dot, rest)
+            rest = re.sub(r"(?<![.\w])%s\b(?!\s*[:(])" % re.escape(name), lambda _m: use_other, rest)
+            body = body[:m.start()] + rest
+            done = False
+            break
+        if done:
+            break
+    return body
+
+
 def fn_body(text, name, rel="?"):
     """body (between the outermost braces) of `fn name`; signatures may contain `;` inside brackets (e.g. `[T; N]`)"""
     pos = 0
